@@ -142,7 +142,7 @@ def r3(run):
     for fn in (HANDLER + "::serve", HANDLER + "::process_frame", HANDLER + "::eval_in_thread"):
         for b in facts.bodies_under(fn):
             for c in b.calls():
-                if c.bb in b.live_blocks() and c.fn in (C.TOKIO_SPAWN, C.THREAD_SPAWN, C.TOKIO_SPAWN_BLOCKING):
+                if c.bb in b.live_blocks() and c.fn in (C.TOKIO_SPAWN, C.TOKIO_SPAWN_BLOCKING) + C.THREAD_SPAWNS:
                     spawns.append(c.sp)
     run.ob("handlers|no-concurrency-below-serve", not spawns, "<Handler::serve>", "no task/thread is spawned below serve / process_frame / eval_in_thread (%s)" % spawns,
            reason="concurrent-invocations")
@@ -164,7 +164,7 @@ def r3(run):
         run.missing("xs::handlers::handler::EngineWorker::new|body", "EngineWorker::new not found")
         return
     run.touch(nb)
-    ts = q.live_calls(nb, C.THREAD_SPAWN)
+    ts = q.live_calls(nb, *C.THREAD_SPAWNS)
     run.exact("threads created by EngineWorker::new", len(ts), 1, nb.sp)
     ctors = C.callers_of(facts, "xs::handlers::handler::EngineWorker::new")
     run.exact("EngineWorker::new call sites (one worker per handler)", len(ctors), 1)
